@@ -33,6 +33,9 @@ struct Hist {
     TwoParticleGFContainer* C;
     std::vector<EPtr> reg;      // keeps every element ever seen alive, so addresses identify elements for the whole history
     int k;
+    // the references container(q) has returned to the caller (a caller may keep one and evaluate through it later); dropped when
+    // the container is refilled (fill / prepareAll clear the map)
+    std::map<IndexCombination4, ElementWithPermFreq<TwoParticleGF>*> held;
     Hist() : C(0), k(0) {}
     int id_of(const EPtr& p) {
         for (size_t i = 0; i < reg.size(); ++i) if (reg[i].get() == p.get()) return int(i);
@@ -136,8 +139,8 @@ int main(int argc, char* argv[]) {
             if (!h.C) { printf("E no history\n"); return 2; }
             ++h.k;
             try {
-                if (cmd == "fill") { h.C->fill(read_set(ss)); printf("R %d UNIT\n", h.k); }
-                else if (cmd == "prep") { h.C->prepareAll(read_set(ss)); printf("R %d UNIT\n", h.k); }
+                if (cmd == "fill") { h.held.clear(); h.C->fill(read_set(ss)); printf("R %d UNIT\n", h.k); }
+                else if (cmd == "prep") { h.held.clear(); h.C->prepareAll(read_set(ss)); printf("R %d UNIT\n", h.k); }
                 else if (cmd == "compall") {
                     int split; ss >> split;
                     std::map<IndexCombination4, std::vector<ComplexType> > out = h.C->computeAll(false, freqs, world, split != 0);
@@ -149,12 +152,18 @@ int main(int argc, char* argv[]) {
                 } else {
                     int i, j, k, l; ss >> i >> j >> k >> l;
                     IndexCombination4 q(i, j, k, l);
-                    if (cmd == "lookup") { (*h.C)(q); printf("R %d UNIT\n", h.k); }
+                    if (cmd == "lookup") { h.held[q] = &(*h.C)(q); printf("R %d UNIT\n", h.k); }
                     else if (cmd == "prepelem") { static_cast<TwoParticleGF&>((*h.C)(q)).prepare(); printf("R %d UNIT\n", h.k); }
                     else if (cmd == "compelem") { static_cast<TwoParticleGF&>((*h.C)(q)).compute(false, freqs, world); printf("R %d UNIT\n", h.k); }
                     else if (cmd == "eval") {
                         long n1, n2, n3; ss >> n1 >> n2 >> n3;
                         ComplexType v = (*h.C)(q)(n1, n2, n3);
+                        // a caller that kept the reference an earlier container(q) returned evaluates through it: it must be the
+                        // same element with the same permutation; when it is not, the caller's value is what is reported
+                        if (h.held.count(q)) {
+                            ComplexType v2 = (*h.held[q])(n1, n2, n3);
+                            if (v2 != v) { printf("X %d held-reference-differs fresh-lookup=%s\n", h.k, pv::hexc(v).c_str()); v = v2; }
+                        }
                         printf("R %d VAL %s\n", h.k, pv::hexc(v).c_str());
                     } else { printf("E unknown command %s\n", cmd.c_str()); return 2; }
                 }
